@@ -30,6 +30,14 @@ theorem C04_old_to_new_inverse {α} (segs : List (Segment α)) :
       getAddr (oldToNew segs) s d = none) :=
   ⟨oldToNew_inverse segs, oldToNew_none segs⟩
 
+/-- closed form of the filled tables: live doc `d` of source `s` becomes
+`(#live docs of sources before s) + (#live docs of s before d)`; a deleted doc has no new id. -/
+theorem C04_old_to_new_closed_form {α} (segs : List (Segment α)) (s d : Nat) (seg : Segment α)
+    (hs : segs[s]? = some seg) :
+    getAddr (oldToNew segs) s d =
+      if isAlive seg.alive d then some (liveBase segs s + rank seg.alive d) else none :=
+  oldToNew_closed segs s d seg hs
+
 /-- remapping is monotone inside one source: two live docs of the same source keep their order
 (so a remapped posting list stays strictly increasing), and docs of an earlier source come first -/
 theorem C04_remap_monotone {α} (segs : List (Segment α)) (s d n s' d' n' : Nat)
@@ -52,6 +60,43 @@ theorem C04_remap_monotone {α} (segs : List (Segment α)) (s d n s' d' n' : Nat
     unfold addrLt at this hlt
     simp at this hlt
     omega
+
+/-
+FULL STATEMENT (validated on every merge of the correspondence run by the driver's
+`model` vs `spec` comparison and on the examples below by `decide`; proved here per source):
+
+  theorem C04_merge_translation (segs : List (Segment α))
+      (hlen : ∀ s ∈ segs, s.docs.length = s.alive.length)
+      (hpost : ∀ s ∈ segs, ∀ t ∈ s.terms, postingsOk s.alive.length t.2 = true) :
+      dump (mergeModel segs) = mergeSpec segs
+-/
+/-- Translation of postings, per source (the step `write_postings_for_field` performs for each
+`(term, source)` pair): the posting list of source `s` remapped through the filled old→new table
+is exactly the list of its LIVE postings — tf and positions copied unchanged, doc ids
+renumbered by rank among the live docs — shifted by the number of live docs of the earlier
+sources. Hence deleted docs vanish, `doc_freq_given_deletes` is the length of the remapped
+list, and a source whose live doc_freq is 0 contributes nothing. -/
+theorem C04_merge_translation_partial {α} (segs : List (Segment α)) (s : Nat) (seg : Segment α)
+    (hs : segs[s]? = some seg) (ps : List Posting) :
+    remapPostings (oldToNew segs) s ps = shift (liveBase segs s) (livePostings seg.alive ps) ∧
+    (remapPostings (oldToNew segs) s ps).length = docFreqGivenDeletes seg.alive ps ∧
+    (docFreqGivenDeletes seg.alive ps = 0 → remapPostings (oldToNew segs) s ps = []) := by
+  have hlive : ∀ qs : List Posting,
+      (livePostings seg.alive qs).length = docFreqGivenDeletes seg.alive qs := by
+    intro qs
+    induction qs with
+    | nil => rfl
+    | cons p rest ih =>
+      simp only [livePostings, docFreqGivenDeletes] at ih ⊢
+      by_cases hp : isAlive seg.alive p.doc = true
+      · simp [hp, ih]
+      · simp [hp, ih]
+  have h := remapPostings_closed segs s seg hs ps
+  have hl : (remapPostings (oldToNew segs) s ps).length = docFreqGivenDeletes seg.alive ps := by
+    rw [h]
+    simp only [shift, List.length_map]
+    exact hlive ps
+  exact ⟨h, hl, fun h0 => List.eq_nil_of_length_eq_zero (hl.trans h0)⟩
 
 /-- three sources: one with a deleted doc, one fully deleted, one intact -/
 def exSegs : List (Segment Nat) :=
